@@ -4,9 +4,10 @@
   `Rox.Props.C11Tree`.)
 -/
 import Rox.Api
+import Rox.Lemmas.Children
 
 namespace Rox.Props.C11
-open Rox Rox.Api
+open Rox Rox.Api Rox.Spec Rox.Lemmas
 
 /-- What a slice-backed iterator still has to yield: the indices `lo .. hi-1`. -/
 def abs (it : SliceIt) : List Nat := List.range' it.lo (it.hi - it.lo)
@@ -101,5 +102,35 @@ theorem descendants_range (d : Doc) (i : Nat) (it : SliceIt) (h : descendants d 
 /-- Non-vacuity: an iterator over [3,7) consumed front, back, nth. -/
 example : (SliceIt.mk 3 7).next.1 = some 3 ∧ (SliceIt.mk 3 7).nextBack.1 = some 6 ∧
     ((SliceIt.mk 3 7).nth 2).1 = some 5 ∧ ((SliceIt.mk 3 7).nth 9).1 = none := by decide
+
+/-! ### Tree-level facts for every parsed document (all inputs) -/
+
+/-- `next_sibling()` is the next node with the same parent, `None` if there is none. -/
+theorem next_sibling_of_parsed (T : Tables) (txt : Bytes) (opt : Opt) (d : Doc)
+    (h : parse T txt opt = .ok d) (i : Nat) (hi : i < d.nodes.size) :
+    nextSibling d i = .ok (nextSibSpec d.nodes i) :=
+  nextSibling_spec d (parse_linkWF T txt opt d h) i hi
+
+/-- `children()` starts with the complete child list of the node, in document order … -/
+theorem children_of_parsed (T : Tables) (txt : Bytes) (opt : Opt) (d : Doc)
+    (hlim : opt.nodesLimit ≤ 4294967295) (h : parse T txt opt = .ok d) (i : Nat) (hi : i < d.nodes.size) :
+    ∃ it, children d i = .ok it ∧ Reach d.nodes i it ∧
+      absIt d.nodes i it = kidsIn d.nodes i 0 (d.nodes.size - 1) := by
+  have := parse_size_le_limit T txt opt d h
+  exact children_init d (parse_linkWF T txt opt d h) (by omega) i hi
+
+/-- … and from every state it can reach, under EVERY interleaving of `next` and `next_back`:
+`next` yields the first remaining child and leaves the rest, `next_back` yields the last remaining
+child and leaves the rest. Hence reverse iteration is the reversed sequence, mixed front/back
+consumption visits each child exactly once, and the iterator ends (returns `None`) exactly when
+nothing remains. -/
+theorem children_deque (T : Tables) (txt : Bytes) (opt : Opt) (d : Doc)
+    (h : parse T txt opt = .ok d) (p : Nat) (it : ChildrenIt) (hr : Reach d.nodes p it) :
+    (∃ it', it.next d = .ok ((absIt d.nodes p it).head?, it') ∧ Reach d.nodes p it' ∧
+        absIt d.nodes p it' = (absIt d.nodes p it).tail) ∧
+    (∃ it', it.nextBack d = .ok ((absIt d.nodes p it).getLast?, it') ∧ Reach d.nodes p it' ∧
+        absIt d.nodes p it' = (absIt d.nodes p it).dropLast) :=
+  ⟨children_next d (parse_linkWF T txt opt d h) p it hr,
+   children_nextBack d (parse_linkWF T txt opt d h) p it hr⟩
 
 end Rox.Props.C11
